@@ -1211,3 +1211,12 @@ LEVEL_NOTE = ("Trusted: Coq kernel+VM; CPython's pickle/copy protocol and native
               "the implementation for tz / DateTime / Time values); set_local_timezone / set_locale histories and Date / Duration / Interval values after a history are "
               "oracle-only streams (model_calls returns None): process-wide configuration is not part of the protocol model.")
 TECHNIQUE = "Coq proofs over a data-driven protocol model (argument lists generated from the AST) + differential correspondence on real objects through 8 copy routes"
+
+
+# C09's float premise float_split_exact_on_D9 is a theorem (Proofs/FloatRoundTripC09.v); the statements that carried it are restated without premise
+TRUSTED = list(TRUSTED) + [
+    "Flocq (installed library) correctness theorems for binary64 operations, bridged to Coq's SpecFloat in coq/Proofs/FloatRoundTripBase.v",
+    "standard-library axioms reported by Print Assumptions for the unconditional float theorems only (roundtrip_duration_deepcopy_weeks0, duration_deepcopy_loses_exactly_weeks): ClassicalDedekindReals.sig_not_dec, "
+    "ClassicalDedekindReals.sig_forall_dec, FunctionalExtensionality.functional_extensionality_dep, Classical_Prop.classic (the real-number axioms Flocq and Reals rest on); "
+    "every other theorem, the *_partial forms included, is closed under the global context",
+]
